@@ -332,12 +332,18 @@ def run(prop, seed, budget, ctx):
     # restore the defaults for whoever runs next in this process
     for i in range(n_ops): baseline(ops_fn, i)
     reset()
+    # histories of calls (no configuration change at all): per-call options and types sharing classes, each call against the same call in a cold state
+    import opt_hist
+    of_, on_, od_, oh_ = opt_hist.run_part(seed, budget)
+    failures += of_; evaluations += on_; distinct |= od_
+    for k_, v_ in oh_.items(): hist[k_] += v_
     for f in failures: hist["stale:" + ("/".join(f["point"]) if "point" in f else "history")] += 1
     return {"evaluations": evaluations, "distinct_nontrivial": len(distinct),
             "rule": f"targeted: every (mutation, value, observation) triple over {n_ops} two-valued mutations (settings incl. errors / base_schema, "
                     "converter registration and reset functions, class aliaser, order, schema, type_name, set_object_fields, validator, serialized "
                     f"method, set_size) x {len(OBS)} observations, each compared with a cold start in a forked child; random histories of 40 steps; "
-                    "non-trivial = the mutation was applied after the observation had been cached under the opposite value",
+                    "non-trivial = the mutation was applied after the observation had been cached under the opposite value; plus histories of calls that differ by their "
+                    "per-call options (aliaser, additional_properties, coercion, exclude_*, all_refs, version, ...) over types sharing classes: every call = the same call in a cold state",
             "samples": samples, "histograms": dict(hist), "correspondence": {"wiring_points_exercised": sorted({k[6:] for k in hist if k.startswith("point:")})},
             "failures": failures}
 
